@@ -20,14 +20,14 @@ from . import taylor, c03
 
 HARNESS = C.Harness("h_jet.cpp", assertions=True, extra_defines=["VS_STUB_LARGE_INVERSE"], auto_valid=True)
 TAU = c03.TAU
-QUICK = ["SO2", "SE2", "SO3", "SE3", "R3"]
+QUICK = ["SO2", "SE2", "SO3", "R3"]
 
 
 def groups(tier):
     import os
     if os.environ.get("VERIF_GROUPS"):
         return os.environ["VERIF_GROUPS"].split(";")
-    return QUICK if tier == "quick" else QUICK + ["SE_2_3", "SGal3"]
+    return QUICK if tier == "quick" else QUICK + ["SE3", "SE_2_3", "SGal3"]
 
 
 def prebuild_targets(tier):
